@@ -24,6 +24,7 @@ EXPLANATION = (
     " (R11) a hop that forwards component statistics through a key filter (allow-list / deny-list of attribute names) lets every attribute of the property's sets through. " 
     " (R12) every `dtype` entry of a mapping returned by a serialiser is rendered with str() / the alias helper (a raw DataType object is not YAML / JSON serialisable). " 
     " (R13) the script generator renders values with repr() only - no value between hand-written quote characters (R3 no longer accepts hand quoting as quoting). " 
+    " (R14) index statistics are read from the level components (.indexes), never from the lossy MultiIndex.columns; (R15) serialize_schema keys the columns mapping by the column label itself (no str(label)). " 
     "NOT decided: textual idempotence of YAML, verdict equality on "
     "probe frames, dtype string aliases resolving at run time."
 )
